@@ -1,4 +1,4 @@
-HOOK_COMMITS = ["c80f124"]
+HOOK_COMMITS = ["549b384"]
 NOTES = ("One explicit TLA+ specification per component under spec/, bound to the C code by replaying TLC-generated behaviours "
          "(predicted observations per step) through harness/vh.c and, for wide value domains, by validating recorded traces. "
          "Genuine defects found are listed in known_findings.json (status fixed / known).")
@@ -42,4 +42,16 @@ CHECKS = {
    text="Invariant on the reference in every reachable state: client abort followed by fresh conforming transfers (segmented download + read-back, expedited write/read, two-block block upload) succeeds with the right data (AG EF idle as a state invariant, thanks to the functional core). "
         "On the C code: every edge of the alphabet model, pumped self-loops and random walks, each followed by that probe - once behind a client abort and once behind an NMT reset communication - with fresh payload patterns so that left-over data is visible.",
    note=MC_NOTE, technique="TLA+/TLC probe invariant + edge-cover x probe behaviours replayed against the C code", ref="DESIGN.md section 8, C05"),
+ "C09": dict(
+   text="CoNode models the NMT mode, the per-mode service mask and the dispatch cascade of CONodeProcess; TLC checks on every transition of the bounded model: CiA 301 transitions only by commands for this node / all nodes or by the application, exactly one boot-up per entry to PRE-OPERATIONAL from initialisation, "
+        "services react only in permitted states, an unclaimed frame reaches the application once without any transmission, LSS frames are never passed on. Every edge plus a probe (one frame per service, reset communication, ticks) and random walks are replayed on the C code comparing mode, callbacks and all frames.",
+   note=MC_NOTE + " Timers are abstract countdowns (assume/guarantee with C07/C08).", technique="TLA+/TLC model checking + edge-cover behaviours replayed against the C code", ref="DESIGN.md section 8, C09"),
+ "C10": dict(
+   text="Same node model with the heartbeat-producer alphabet (ticks, NMT commands incl. both resets, SDO/API writes of 1017h, consumer and TPDO activity); invariant: a frame with the current state code is emitted on a tick iff the reference countdown expires on it in a state after boot-up; writes restart, zero stops. "
+        "Edges + 9-tick probe and walks replayed with per-tick comparison of all emitted frames.",
+   note=MC_NOTE + " Timers are abstract countdowns (assume/guarantee with C07/C08).", technique="TLA+/TLC model checking + edge-cover behaviours replayed against the C code", ref="DESIGN.md section 8, C10"),
+ "C11": dict(
+   text="Heartbeat consumer entries as independent records (node, time, active, countdown, last state, event counter); TLC checks events exactly on expiry per monitored node, chain well-formedness (armed implies active, no node monitored twice); the SDO write rules (duplicate refused with 0604 0043h, time 0 deactivates exactly the written entry, re-targeting cancels the old monitoring) are the reference the C code is compared with on every edge of the two-entry model, "
+        "with a 21-step probe (heartbeats of all nodes, ticks, queries) and a 600-tick saturation run.",
+   note=MC_NOTE + " Timers are abstract countdowns (assume/guarantee with C07/C08).", technique="TLA+/TLC model checking + edge-cover behaviours replayed against the C code", ref="DESIGN.md section 8, C11"),
 }
